@@ -207,6 +207,7 @@ class Ctx:
         self.inlined = []
         self.file = file
         self.havocs = []     # names of values replaced by unconstrained ones (tolerant mode)
+        self.skipped = []    # byte spans of statements skipped in tolerant mode
         self.mutable = set() # locals that Rust allows a statement to mutate: `let mut x`, `mut x: T` and `x: &mut T` (no interior mutability in this crate)
 
     def fresh(self, base, sort, mty=None):
@@ -740,6 +741,7 @@ class Interp:
                 if r_ in env.vars and r_ in self.ctx.mutable and not isinstance(env.vars[r_], (Closure, SymArr)):
                     env.vars[r_] = fresh_like(self.ctx, env.vars[r_], r_)
             self.ctx.havocs.append("stmt@%d-%d: %s" % (s["sp"][0], s["sp"][1], str(ex)[:80]))
+            self.ctx.skipped.append((s["sp"][0], s["sp"][1]))
             return UNIT
 
     def note_mutable(self, pat):
@@ -980,6 +982,7 @@ class Interp:
         return v
 
     def finish_returns(self, sub, v):
+        if sub.pc is FALSE: v = None        # control never falls off the end: only the early returns carry a value
         out = v
         for c, rv in reversed(sub.returns):
             out = rv if out is None else merge(c, rv, out)
@@ -1057,6 +1060,13 @@ class Interp:
             return IterV(recv.name, recv.elem, recv.consumed, recv.adapters + (m,))     # any other adapter: remembered by name only
         args = [self.ev_arg(env, a) for a in n["args"]]
         if isinstance(recv, RangeV) and m == "clone": return recv
+        if isinstance(recv, Havoc) and self.tolerant:
+            # a method of an unknown value: unknown result; it may write through `&mut` arguments (their roots are havoc'd) and into the receiver
+            # (already unknown). Nothing else can change (Rust's borrow rules).
+            for a_ in n["args"]:
+                for r_ in self.mutated_roots({"k": "x", "a": a_}):
+                    if r_ in env.vars and r_ in self.ctx.mutable: env.vars[r_] = fresh_like(self.ctx, env.vars[r_], r_)
+            return Havoc(self.ctx, "result_of_" + m)
         if isinstance(recv, Vec): return self.vec_method(env, n, recv, m, args)
         if isinstance(recv, Mat):
             if m == "determinant":
